@@ -588,6 +588,9 @@ bool evalBits(int t, int point, std::unordered_map<int, uint64_t> &memo, uint64_
   else if (op == "fpext") r = fpToBits(fa(0), by);
   else if (op == "fptrunc") r = fpToBits((float)fa(0), 4);
   else if (op == "smin" || op == "smax" || op == "umin" || op == "umax") { uint64_t a = v[0] & m, b = v[1] & m; int64_t sa = sextB(a, bits), sb = sextB(b, bits); r = op == "smin" ? (sa <= sb ? a : b) : op == "smax" ? (sa >= sb ? a : b) : op == "umin" ? (a <= b ? a : b) : (a >= b ? a : b); }
+  else if (op == "usub.sat") { uint64_t a = v[0] & m, b = v[1] & m; r = a > b ? a - b : 0; }
+  else if (op == "uadd.sat") { uint64_t a = v[0] & m, b = v[1] & m; r = (a + b) & m; if (r < a) r = m; }
+  else if (op == "ssub.sat" || op == "sadd.sat") { __int128 a = sextB(v[0] & m, bits), b = sextB(v[1] & m, bits), c = op == "sadd.sat" ? a + b : a - b; __int128 hi = ((__int128)1 << (bits - 1)) - 1, lo = -((__int128)1 << (bits - 1)); if (c > hi) c = hi; if (c < lo) c = lo; r = (uint64_t)(int64_t)c; }
   else if (op == "abs") { int64_t a = sextB(v[0] & m, bits); r = a < 0 ? (uint64_t)0 - (uint64_t)a : (uint64_t)a; if (sextB(r & m, bits) < 0) g_evalOverflow = true; }
   else if (op == "x86min") { double a = fa(0), b = fa(1); r = (a < b) ? v[0] : v[1]; }
   else if (op == "x86max") { double a = fa(0), b = fa(1); r = (a > b) ? v[0] : v[1]; }
